@@ -29,7 +29,11 @@ def main():
     mod = importlib.import_module('harness.components.' + COMPONENTS[a.prop])
     try:
         if a.replay:
-            return mod.replay(a.prop, a.replay) if hasattr(mod, 'replay') else core.generic_replay(mod, a.prop, a.replay)
+            rep = json.load(open(a.replay))
+            if rep.get('driver', '').startswith('harness.drivers.'):
+                return core.generic_replay(mod, a.prop, a.replay)
+            import importlib as _il
+            return _il.import_module(rep['driver']).replay(a.prop, a.replay)
         ctx = core.Ctx(a.prop, a.tier, seed)
         return mod.run(ctx)
     except core.MachineryError as e:
